@@ -968,9 +968,10 @@ def run_checks(prop, ctx, vlib, want=("C08", "C01")):
     r3p = jx_paths.stage_paths(vlib, impl, model, rng, tier, known_ids, want, bump, stats)
     r3a = jx_paths.stage_attrs(vlib, impl, model, rng, tier, bump, stats)
     r3d = jx_paths.stage_detect(vlib, impl, model, rng, tier, bump, stats, autoutf_detect, PYCODEC, BOM)
+    r3e = jx_paths.stage_xdetect(vlib, impl, model, rng, tier, bump, stats, pugi_detect, PYCODEC, BOM)
     for k in ("failing", "diffs", "notes", "samples"):
-        r3[k] = r3[k] + r3x[k] + r3p[k] + r3a[k] + r3d[k]
-    r3["evaluations"] += r3x["evaluations"] + r3p["evaluations"] + r3a["evaluations"] + r3d["evaluations"]
+        r3[k] = r3[k] + r3x[k] + r3p[k] + r3a[k] + r3d[k] + r3e[k]
+    r3["evaluations"] += r3x["evaluations"] + r3p["evaluations"] + r3a["evaluations"] + r3d["evaluations"] + r3e["evaluations"]
     failing += r3["failing"]
     diffs += r3["diffs"]
     notes += r3["notes"]
@@ -1399,7 +1400,9 @@ XRENDER_OPTS = [dict(ws=0, esc="lit", order=False, misc=False, cdata=False, spli
 
 def pugi_detect(b):
     """pugixml guess_buffer_encoding (auto) for the encodings in play"""
-    d = list(b[:4]) + [0] * 4
+    if len(b) < 4:
+        return "utf8"
+    d = list(b[:4])
     if d[:4] == [0, 0, 0xFE, 0xFF]:
         return "utf32be"
     if d[:4] == [0xFF, 0xFE, 0, 0]:
